@@ -5,7 +5,7 @@ from __future__ import annotations
 
 import random
 
-ATOM = {"SP": " ", "NL": "\n", "SUP2": "\u00b2", "ARD3": "\u0663"}
+ATOM = {"SP": " ", "NL": "\n", "NWS": "<nowiki />", "SUP2": "\u00b2", "ARD3": "\u0663"}
 LITERALS = ["{{{", "}}}", "[[:Template:", "]]", "{{", "}}"]
 
 
